@@ -18,7 +18,7 @@ def main(tier, seed):
 
     def one(i):
         # every third program also declares traits and takes `impl Trait` parameters: the driver implements the vtable
-        return api.run_c_program(seed, i, "c01", ncalls=40, valgrind=(i < nval), profile=(dict(traits=True, trait_prob=0.3) if i % 3 == 0 else None))
+        return api.run_c_program(seed, i, "c01", ncalls=40, valgrind=(i < nval), profile=(dict(traits=True, trait_prob=0.3) if i % 3 == 0 else dict(held_callbacks=True) if i % 3 == 1 else None))
     results = pmap(one, range(nprog))
     # feature quotas are met by construction: while a required production has not been exercised, run further programs (new indices)
     for round_ in range(4):
@@ -48,7 +48,7 @@ def main(tier, seed):
     chk.distinct = sigs
     chk.rule = ("seeded grammar-generated bridge modules (1-2 opaques, 1-3 structs, 0-2 out-structs, 1-2 enums, 3-7 methods per opaque, methods on "
                 "structs/enums) compiled with the real proc macro; C driver compiled against freshly generated headers with gcc -std=c11 "
-                "ASan+UBSan (every third program also declares traits whose vtables the driver implements); ~40 scripted calls per program with boundary/extreme/NaN-payload/NULL+0 values; every CALL/CB/CBRET/NEW/DROP/RET/"
+                "ASan+UBSan (every third program also declares traits whose vtables the driver implements, another third keeps `'static` callbacks in holder opaques and invokes them in later calls); ~40 scripted calls per program with boundary/extreme/NaN-payload/NULL+0 values; every CALL/CB/CBRET/NEW/DROP/RET/"
                 "MUT/WR record compared with the script's prediction. distinct_nontrivial = distinct method shape signatures "
                 "(owner kind, self kind, parameter and return productions) containing a non-primitive production.")
     chk.extra = {"programs": len(results), "programs_skipped": skipped, "events_observed": events,
